@@ -22,6 +22,7 @@ pub fn scenario_regime(tier: &str, poor_debt: bool) -> (Life, Bounds) {
         money_devs: poor_debt,
         precommits: th,
         horizon: None,
+        big: false,
     };
     let b = if th {
         Bounds { max_depth: 400, wall_cap_s: 1500.0, ..Default::default() }
